@@ -434,3 +434,50 @@ func H_C06_hook() {
 	vAssert(o1 == o2, expr+": equals its unrolling under an unwrapping hook")
 	vCover("reached")
 }
+
+// H_C06_mixed_kinds: the one-name form means the value for a list and the key
+// for a map each time a collection is folded — also when one quantifier node
+// meets a list in one element and a map in the next, in either order, or on
+// two successive calls.
+func H_C06_mixed_kinds() {
+	lv, mv := vInt8(), vInt8()
+	asList := map[string]interface{}{"p": []interface{}{lv}}
+	asMap := map[string]interface{}{"p": map[string]interface{}{"1": mv}}
+	var l []interface{}
+	listFirst := vBool()
+	if listFirst {
+		l = []interface{}{asList, asMap}
+	} else {
+		l = []interface{}{asMap, asList}
+	}
+	d := map[string]interface{}{"l": l, "kk": map[string]string{"1": "1"}}
+	any := vBool()
+	q, op := "all", "and"
+	if any {
+		q, op = "any", "or"
+	}
+	// n is the element value of the list (lv) and the key "1" of the map
+	li, mi := "0", "1"
+	if !listFirst {
+		li, mi = "1", "0"
+	}
+	partList, partMap := "l."+li+".p.0 == 1", "kk.1 == 1"
+	_ = mi
+	parts := []string{partList, partMap}
+	if !listFirst {
+		parts = []string{partMap, partList}
+	}
+	ev := mustCreate(q + " l as s { " + q + " s.p as n { n == 1 } }")
+	o1, _, _ := evalO(ev, d)
+	o2, _, _ := evalO(mustCreate(joinOp(parts, op, "")), d)
+	vAssume(o1 != oPanic && o2 != oPanic)
+	vAssert(o1 == o2, "one-name binding over a list element and a map element in one fold")
+	// the same node on two successive calls: a list, then a map
+	ev2 := mustCreate(q + " p as n { n == 1 }")
+	a1, _, _ := evalO(ev2, asList)
+	a2, _, _ := evalO(ev2, asMap)
+	b2, _, _ := evalO(mustCreate(q+" p as n { n == 1 }"), asMap)
+	_ = a1
+	vAssert(a2 == b2, "one-name binding means the key of a map also after the node folded a list")
+	vCover("reached")
+}
